@@ -35,13 +35,15 @@ Dims == [
   leafPki  |-> <<"A", "B">>,
   interPki |-> <<"A", "B">>,
   rootPki  |-> <<"A", "B">>,
-  pool     |-> <<"A", "B", "AB", "empty", "nil">>,
+  pool     |-> <<"A", "B", "AB", "empty", "nil", "AI">>,     \* AI: root A and its platform CA certificate
   rotVia   |-> <<"pool", "files", "inline", "mixed", "fileEmpty", "inlineNonPem">>,   \* how the caller builds the pool: directly, or with
                                                \* RootOfTrustToOptions from bundle files / inline PEM / both / an empty file / a non-PEM string
   leafRole |-> <<"pck", "wrongCN", "pckByRoot", "caAsLeaf", "tcbSignByRoot">>,
   leafId   |-> <<"l1", "l2">>,                 \* which of the platform's two PCK leaves the chain carries (both honest)
   msgWide  |-> <<"none", "version", "akType", "certType", "pckCertType", "authSize", "isvProdId", "isvSvn", "isvSvnPlus65536">>,
                \* a QuoteV4 *message* whose numeric field exceeds the width the wire format gives it (the low bits are the genuine value): not a quote
+  leafExtCritical |-> <<"no", "yes">>,      \* the PCK leaf marks its SGX extension critical (Intel does not): x509 path building refuses an unhandled critical extension
+  sgxOrder |-> <<"canon", "reversed", "interleaved">>,   \* order in which the PCK leaf's SGX extension lists its elements (each is found by its OID)
   sigShape |-> <<"any", "quoteshortR", "quoteshortS", "qeReportshortR", "qeReportshortS", "tcbInfoshortR", "tcbInfoshortS",
                 "enclaveIdentityshortR", "enclaveIdentityshortS">>,   \* a raw signature scalar with leading zero bytes (its DER INTEGER is shorter): still a valid signature
   serials  |-> <<"std", "oddHex", "highBit", "tiny">>,   \* shape of every certificate serial: even hex digits / top nibble zero / top bit set (DER pads with 00) / single byte
@@ -52,16 +54,16 @@ Dims == [
   pemType  |-> <<"cert", "other">>,
   interCN  |-> <<"platform", "processor">>,
   \* collateral authenticity (C03), one group per document
-  tcbSigner   |-> <<"ok", "pkiB", "wrongRole", "rootDirect", "selfSigned", "lookalikeSameSerial">>,
+  tcbSigner   |-> <<"ok", "pkiB", "wrongRole", "rootDirect", "selfSigned", "lookalikeSameSerial", "pkiBSameSki">>,
   tcbOver     |-> <<"member", "wholeBody", "reencoded">>,
-  tcbAlter    |-> <<"none", "memberBit", "sigBit">>,
+  tcbAlter    |-> <<"none", "memberBit", "sigBit", "sigMissing", "sigNull", "sigEmpty">>,
   tcbExtra    |-> <<"none", "dupBefore", "dupAfter", "caseBefore", "caseAfter", "foldAfter">>,
   tcbHdr      |-> <<"ok", "missing", "duplicated", "empty", "swapped", "threeCerts", "bitflip">>,   \* bitflip: one bit of the DER of a header certificate
   tcbMeta     |-> <<"ok", "wrongId", "wrongVersion", "noLevels", "levelsOmitted", "memberMissing">>,
-  qeSignerDoc |-> <<"ok", "pkiB", "wrongRole", "rootDirect", "selfSigned", "lookalikeSameSerial">>,
-  sharedSigner |-> <<"distinct", "shared">>,   \* one signing certificate (byte-identical issuer chains) for both documents, as Intel does
+  qeSignerDoc |-> <<"ok", "pkiB", "wrongRole", "rootDirect", "selfSigned", "lookalikeSameSerial", "pkiBSameSki">>,
+  sharedSigner |-> <<"distinct", "shared", "sameKey">>,   \* sameKey: the signing certificate was re-issued (same key and subject, another serial), one issue per document;   \* one signing certificate (byte-identical issuer chains) for both documents, as Intel does
   qeOver      |-> <<"member", "wholeBody", "reencoded">>,
-  qeAlter     |-> <<"none", "memberBit", "sigBit">>,
+  qeAlter     |-> <<"none", "memberBit", "sigBit", "sigMissing", "sigNull", "sigEmpty">>,
   qeExtra     |-> <<"none", "dupBefore", "dupAfter", "caseBefore", "caseAfter", "foldAfter">>,
   qeHdr       |-> <<"ok", "missing", "duplicated", "empty", "swapped", "threeCerts", "bitflip">>,
   qeMeta      |-> <<"ok", "wrongId", "wrongVersion", "noLevels", "levelsOmitted", "memberMissing">>,
@@ -69,10 +71,10 @@ Dims == [
   tcbContent |-> <<"ok", "laterMatch", "laterMatchTdx", "laterMatchPce", "fmspcUpper", "fmspc", "pceid", "mrsigner", "attrs",
                    "outOfDate", "revoked", "swHardening", "configNeeded", "noLevel",
                    "attrsShort", "attrsEmpty", "attrsLong", "mrsignerShort">>,     \* lengths: a mask / value that does not span the quote's field
-  modBranch  |-> <<"none", "modOk", "modOutOfDate", "modMissing", "modNoLevel", "modOmitted">>,
+  modBranch  |-> <<"none", "modOk", "modOutOfDate", "modMissing", "modNoLevel", "modOmitted", "modDecoyIds">>,
   qeContent  |-> <<"ok", "laterMatch", "maskedDiff", "maskZero", "valueOutsideMask", "misc", "miscHigh", "attrs", "mrsigner", "prodid",
                    "outOfDate", "revoked", "swHardening", "noLevel",
-                   "attrsShort", "attrsEmpty", "attrsLong", "miscShort", "mrsignerShort">>,
+                   "attrsShort", "attrsEmpty", "attrsLong", "miscShort", "mrsignerShort", "attrsBothHalvesLE", "attrsBothHalvesBE">>,
   \* revocation (C05)
   pckCrlRev     |-> <<"none", "nearMiss", "many", "leaf", "leafFirst", "leafAmongMany">>,
   rootCrlRev    |-> <<"none", "nearMiss", "inter", "tcbSigner", "qeSigner">>,
@@ -133,7 +135,7 @@ Realisable(w, o) == /\ (o.now = "unset" => w.time = "none")
 (* Helpers over a world.                                                                 *)
 
 Home(w)  == IF w.src = "intel" THEN "I" ELSE w.leafPki      \* the PKI that issued the leaf and the honest collateral
-InPool(p, w) == \/ (p = "A" /\ w.pool \in {"A", "AB"})
+InPool(p, w) == \/ (p = "A" /\ w.pool \in {"A", "AB", "AI"})
                 \/ (p = "B" /\ w.pool \in {"B", "AB"})
                 \/ (p = "I" /\ w.pool = "nil")             \* no pool given: the embedded Intel root, and only it
 IssuedByInter(w) == w.leafRole \in {"pck", "wrongCN"}
@@ -175,7 +177,7 @@ DpSeq(w) == CASE w.rootCrlDps = "ok" -> <<"ok">>
               [] w.rootCrlDps = "errorError" -> <<"error", "error">>
 
 \* (the TCB Info recorded in the repository does not contain a level matching the sample quote's platform: "no matching TCB level")
-GoodTcb(w) == w.tcbContent \in {"ok", "laterMatch", "laterMatchTdx", "laterMatchPce", "fmspcUpper"} /\ w.modBranch \in {"none", "modOk"} /\ w.src = "gen"
+GoodTcb(w) == w.tcbContent \in {"ok", "laterMatch", "laterMatchTdx", "laterMatchPce", "fmspcUpper"} /\ w.modBranch \in {"none", "modOk", "modDecoyIds"} /\ w.src = "gen"
 GoodQe(w)  == w.qeContent \in {"ok", "laterMatch", "maskedDiff", "maskZero"}
 
 (* ---------------------------------------------------------------------------------- *)
@@ -195,7 +197,7 @@ N02(w, o) == /\ w.leafRole = "pck" /\ w.interSlot = "inter"
 \* C03: collateral authentic, per document; values are those of the signed member
 DocOk(w, s, ov, al, h, m) ==
              /\ \/ (w[s] = "ok" /\ InPool(Home(w), w))                                   \* signer certified by a trusted root for that role:
-                \/ (w[s] = "pkiB" /\ InPool(IF Home(w) = "A" THEN "B" ELSE "A", w))      \* the look-alike PKI's signer counts iff that PKI is trusted too
+                \/ (w[s] \in {"pkiB", "pkiBSameSki"} /\ InPool(IF Home(w) = "A" THEN "B" ELSE "A", w))      \* the look-alike PKI's signer counts iff that PKI is trusted too
              /\ w[ov] = "member" /\ w[al] = "none"
              /\ w[h] \in {"ok", "duplicated"}
              /\ w[m] = "ok"
@@ -223,7 +225,7 @@ Necessary(w, o) == N01(w, o) /\ N02(w, o) /\ N03(w, o) /\ N04(w, o) /\ N05(w, o)
 
 \* C11: the honest worlds (baseline and its honest variants) must be accepted
 Honest(w, o) ==
-  /\ N01(w, o)
+  /\ N01(w, o) /\ w.leafExtCritical = "no"
   /\ w.leafRole = "pck" /\ w.interSlot = "inter" /\ InPool(Home(w), w) /\ w.rotVia \in {"pool", "files", "inline", "mixed"}
   /\ (w.src = "gen" => w.interPki = Home(w) /\ w.rootPki = Home(w))
   /\ w.nBlocks = "n3" /\ w.trailer \in {"none", "nul"} /\ w.pemType = "cert" /\ w.interCN = "platform"
@@ -259,9 +261,9 @@ HdrParses(h) == h \in {"ok", "swapped"}      \* headerToIssuerChain: exactly one
 \* (the unsigned sibling of the *Extra dimensions carries the honest content but is never byte-identical to the signed member)
 ResponseOk(w, o, s, ov, al, ex, h, revoked) ==
   /\ w[h] = "ok"                               \* swapped: the "root" is the signer: name check fails
-  /\ w[s] \in {"ok", "pkiB"}                   \* wrongRole/rootDirect: signer CN; selfSigned: not issued by the root
+  /\ w[s] \in {"ok", "pkiB", "pkiBSameSki"}    \* wrongRole/rootDirect: signer CN; selfSigned: not issued by the root
   /\ (w[s] = "ok" => InPool(Home(w), w))
-  /\ (w[s] = "pkiB" => InPool(IF Home(w) = "A" THEN "B" ELSE "A", w))
+  /\ (w[s] \in {"pkiB", "pkiBSameSki"} => InPool(IF Home(w) = "A" THEN "B" ELSE "A", w))
   /\ w[ov] = "member" /\ w[al] = "none"
   /\ w[ex] # "dupAfter"                        \* the exact-key member that is signature-checked is then the unsigned sibling
   /\ (o.cr => /\ w.rootCrlSigner = "root" /\ (w.src = "gen" => w.rootPki = Home(w)) /\ w[s] = "ok"
@@ -297,7 +299,7 @@ StageResult(st, w, o) ==
          IF /\ w.interCN = "platform"                        \* DEV: a Processor-CA chain is rejected here
             /\ w.interSlot = "inter"                         \* the certificate in the intermediate position must be named Platform CA
             /\ w.interPki = w.rootPki                        \* intermediate signed by the *embedded* root (DEV: stricter than C02)
-            /\ w.leafRole = "pck" /\ w.leafPki = w.interPki
+            /\ w.leafRole = "pck" /\ w.leafPki = w.interPki /\ w.leafExtCritical = "no"
             /\ InPool(Home(w), w)                            \* x509 path to the pool; nil pool = Intel's root, never a generated one
             /\ ~NotYet(w, "leaf") /\ ~NotYet(w, "inter") /\ ~Expired(w, "leaf") /\ ~Expired(w, "inter")
             /\ (o.cr => /\ o.gc
